@@ -38,3 +38,19 @@ func Now() primitive.Timestamp {
 		I: tsCounter,
 	}
 }
+
+// Advance ensures that all timestamps generated from now on are greater than
+// the specified timestamp. It is used to continue after the newest timestamp
+// found in loaded data, so that a restart within the same second does not hand
+// out timestamps again.
+func Advance(ts primitive.Timestamp) {
+	// acquire mutex
+	tsMutex.Lock()
+	defer tsMutex.Unlock()
+
+	// move forward if behind
+	if tsSeconds < ts.T || (tsSeconds == ts.T && tsCounter < ts.I) {
+		tsSeconds = ts.T
+		tsCounter = ts.I
+	}
+}
